@@ -158,6 +158,8 @@ type Exec struct {
 	seqNames   []seqName
 	extMemo    map[[2]int][2]*smt.Term
 	quantNames map[int]*smt.Term
+	macroEqs   []macroEq
+	preWrites  int
 	assigns    []*Loc
 	assignsAny bool
 }
@@ -229,7 +231,7 @@ func trunc(s string, n int) string {
 
 func (e *Exec) newLocal(t types.Type, name string) *Object {
 	e.objs++
-	return &Object{ID: e.objs, Addr: e.C.IntC(int64(-e.objs)), Typ: t, Name: name}
+	return &Object{ID: e.objs, Addr: e.C.BVC(uint64(int64(-e.objs)), 64), Typ: t, Name: name}
 }
 
 // preObj returns the pre-existing object at address term addr with type t.
@@ -281,7 +283,7 @@ func (e *Exec) initOf(o *Object) Value {
 		if isInterface(o.Typ) && strings.HasPrefix(o.Glob.Name(), "Err") {
 			// package-level Err* variables are initialised with errors.New and never reassigned
 			iv := o.init.(*IfaceV)
-			e.Axioms = append(e.Axioms, e.C.Neq(iv.Alts[0].Tag, e.C.IntC(0)))
+			e.Axioms = append(e.Axioms, e.C.Neq(iv.Alts[0].Tag, e.C.BVC(uint64(0), 64)))
 		}
 		return o.init
 	}
@@ -296,6 +298,10 @@ func (e *Exec) contents(st *State, o *Object) Value {
 	return e.initOf(o)
 }
 
+// maxLen bounds the length of every pre-existing slice and string (assumption:
+// no byte string of 2 GiB or more is handed to the library).
+const maxLen = 1<<31 - 1
+
 // ---- symbolic values from terms ----
 
 // fromTerm interprets term t (of sort sortOf(T)) as a value of type T.
@@ -308,22 +314,22 @@ func (e *Exec) fromTerm(T types.Type, t *smt.Term, name string) Value {
 	case *types.Basic:
 		return Scalar{T: t, Typ: T}
 	case *types.Pointer:
-		isnil := c.Eq(t, c.IntC(0))
-		e.Axioms = append(e.Axioms, c.IntLe(c.IntC(0), t))
+		isnil := c.Eq(t, c.BVC(uint64(0), 64))
+		e.Axioms = append(e.Axioms, c.BVSle(c.BVC(uint64(0), 64), t))
 		return &PtrV{Elem: u.Elem(), Alts: []PtrAlt{
 			{Cond: isnil},
 			{Cond: c.Not(isnil), Loc: &Loc{Obj: e.preObj(t, u.Elem(), name)}},
 		}}
 	case *types.Slice:
-		reg := c.App("sl_reg", smt.Int, t)
+		reg := c.App("sl_reg", refSort, t)
 		ln := c.App("sl_len", smt.BV(64), t)
 		cp := c.App("sl_cap", smt.BV(64), t)
-		isnil := c.Eq(reg, c.IntC(0))
+		isnil := c.Eq(reg, c.BVC(uint64(0), 64))
 		z := c.BVC(0, 64)
 		e.Axioms = append(e.Axioms,
-			c.IntLe(c.IntC(0), reg),
+			c.BVSle(c.BVC(uint64(0), 64), reg),
 			c.BVSle(z, ln), c.BVSle(ln, cp),
-			c.BVSle(cp, c.BVC(1<<48, 64)),
+			c.BVSle(cp, c.BVC(maxLen, 64)),
 			c.Implies(isnil, c.Eq(cp, z)))
 		return &SliceV{Elem: u.Elem(), Len: ln, Cap: cp, Alts: []SliceAlt{
 			{Cond: isnil},
@@ -344,8 +350,8 @@ func (e *Exec) fromTerm(T types.Type, t *smt.Term, name string) Value {
 			return e.fromTerm(el, c.App("arr_at_"+an, sortOf(el), t, i), name+"[]")
 		}}
 	case *types.Interface:
-		tag := c.App("if_tag", smt.Int, t)
-		e.Axioms = append(e.Axioms, c.IntLe(c.IntC(0), tag))
+		tag := c.App("if_tag", refSort, t)
+		e.Axioms = append(e.Axioms, c.BVSle(c.BVC(uint64(0), 64), tag))
 		return &IfaceV{Typ: T, Alts: []IfaceAlt{{Cond: c.True(), Tag: tag, Opaque: t}}}
 	case *types.Map:
 		return &MapV{ID: t, Typ: u}
@@ -395,7 +401,7 @@ func (e *Exec) zero(T types.Type) Value {
 		case types.Float32, types.Float64, types.UntypedFloat:
 			return Scalar{T: c.Lit("f0", sortFloat), Typ: T}
 		case types.UnsafePointer, types.UntypedNil:
-			return Scalar{T: c.IntC(0), Typ: T}
+			return Scalar{T: c.BVC(uint64(0), 64), Typ: T}
 		}
 	case *types.Pointer:
 		return &PtrV{Elem: u.Elem(), Alts: []PtrAlt{{Cond: c.True()}}}
@@ -415,13 +421,13 @@ func (e *Exec) zero(T types.Type) Value {
 			return zv
 		}}
 	case *types.Interface:
-		return &IfaceV{Typ: T, Alts: []IfaceAlt{{Cond: c.True(), Tag: c.IntC(0)}}}
+		return &IfaceV{Typ: T, Alts: []IfaceAlt{{Cond: c.True(), Tag: c.BVC(uint64(0), 64)}}}
 	case *types.Map:
-		return &MapV{ID: c.IntC(0), Typ: u}
+		return &MapV{ID: c.BVC(uint64(0), 64), Typ: u}
 	case *types.Signature:
-		return &FuncV{ID: c.IntC(0)}
+		return &FuncV{ID: c.BVC(uint64(0), 64)}
 	case *types.Chan:
-		return Scalar{T: c.IntC(0), Typ: T}
+		return Scalar{T: c.BVC(uint64(0), 64), Typ: T}
 	case *types.Tuple:
 		tv := &TupleV{}
 		for i := 0; i < u.Len(); i++ {
@@ -623,7 +629,7 @@ func (v *IfaceV) compact(e *Exec) {
 	var out []IfaceAlt
 	var nilCond *smt.Term
 	for _, al := range v.Alts {
-		if al.Typ == nil && al.Opaque == nil && al.Tag.Op == "int" && al.Tag.Val == 0 {
+		if al.Typ == nil && al.Opaque == nil && al.Tag.Op == "bv" && al.Tag.Val == 0 {
 			if nilCond == nil {
 				nilCond = al.Cond
 			} else {
@@ -634,7 +640,7 @@ func (v *IfaceV) compact(e *Exec) {
 		out = append(out, al)
 	}
 	if nilCond != nil {
-		out = append(out, IfaceAlt{Cond: nilCond, Tag: c.IntC(0)})
+		out = append(out, IfaceAlt{Cond: nilCond, Tag: c.BVC(uint64(0), 64)})
 	}
 	v.Alts = out
 }
@@ -704,6 +710,9 @@ func locKey(l *Loc) string {
 func (e *Exec) storeLoc(st *State, l *Loc, v Value) {
 	if e.writes != nil {
 		e.writes[locKey(l)] = l
+	}
+	if l.Obj.Pre {
+		e.preWrites++
 	}
 	st.mem[l.Obj] = e.setPath(e.contents(st, l.Obj), l.Path, v)
 }
@@ -805,7 +814,7 @@ func (e *Exec) curFn() *ssa.Function {
 
 func (e *Exec) locAddr(l *Loc) *smt.Term {
 	if l == nil {
-		return e.C.IntC(0)
+		return e.C.BVC(uint64(0), 64)
 	}
 	if len(l.Path) == 0 {
 		return l.Obj.Addr
@@ -813,9 +822,9 @@ func (e *Exec) locAddr(l *Loc) *smt.Term {
 	t := l.Obj.Addr
 	for _, p := range l.Path {
 		if p.Idx != nil {
-			t = e.C.App("elemaddr", smt.Int, t, p.Idx)
+			t = e.C.App("elemaddr", refSort, t, p.Idx)
 		} else {
-			t = e.C.App("fieldaddr", smt.Int, t, e.C.IntC(int64(p.Field)))
+			t = e.C.App("fieldaddr", refSort, t, e.C.BVC(uint64(int64(p.Field)), 64))
 		}
 	}
 	return t
@@ -832,7 +841,7 @@ func (e *Exec) ptrAddr(p *PtrV) *smt.Term {
 		}
 	}
 	if res == nil {
-		return e.C.IntC(0)
+		return e.C.BVC(uint64(0), 64)
 	}
 	return res
 }
